@@ -262,7 +262,7 @@ Lemma access_ok : forall y a s, Inv s -> valid_style y -> (bst s = BInit \/ bst 
   let '(s1, r, ev) := access y a s in
   Inv s1 /\ live s1 = live s /\ created s1 = created s /\
   (forall x, (count_ev (is_ctor x) ev + count_z x (gds s) = count_ev (is_dtor x) ev + count_z x (gds s1))%nat) /\
-  (r = RPend <-> exists k, bst s1 = BPend k) /\
+  ((r = RPend <-> exists k, bst s1 = BPend k) /\ (res_item r = [] -> r = RPend)) /\
   forall rest nc, rem s (a :: rest) nc = tag nc (step_items ev r) ++ rem s1 rest nc.
 Proof.
   intros y a s HI Hy Hb.
@@ -285,7 +285,8 @@ Proof.
       unfold Inv in HI4; rewrite Hs in HI4; destruct HI4 as (_ & _ & _ & Hg & _); rewrite Hg; exact HB. }
     split.
     { destruct st; destruct Hst as (Hr & Hs); subst r; try destruct Hs as (Hs & _);
-      split; intro H; try discriminate; try (destruct H as [k0 H]; congruence); eauto. }
+      (split; [split; intro H; try discriminate; try (destruct H as [k0 H]; congruence); eauto
+              | cbn; intro H; try discriminate; reflexivity]). }
     intros rest nc. pose proof (exec_expected (pc s) (gds s) (cur s) a rest nc) as HX. rewrite E in HX.
     cbn [hd tl]. unfold step_items.
     destruct st.
@@ -306,7 +307,8 @@ Proof.
       unfold Inv in HI4; rewrite Hs in HI4; destruct HI4 as (_ & _ & _ & Hg & _); rewrite Hg; exact HB. }
     split.
     { destruct st; destruct Hst as (Hr & Hs); subst r; try destruct Hs as (Hs & _);
-      split; intro H; try discriminate; try (destruct H as [k0 H]; congruence); eauto. }
+      (split; [split; intro H; try discriminate; try (destruct H as [k0 H]; congruence); eauto
+              | cbn; intro H; try discriminate; reflexivity]). }
     intros rest nc. pose proof (exec_expected (pc s) (gds s) a a rest nc) as HX. rewrite E in HX.
     cbn [hd tl]. unfold step_items. cbn [arg_items].
     destruct st.
@@ -314,4 +316,269 @@ Proof.
     + destruct Hst as (-> & Hb4 & Hp & Hg & Hc & Hap). rewrite Hb4, Hp, Hc, Hap. rewrite HX. fin_tag.
     + destruct Hst as (-> & Hb4). rewrite Hb4, HX. fin_tag.
     + destruct Hst as (-> & Hb4). rewrite Hb4, HX. fin_tag.
+Qed.
+
+(* ---------- one completion ---------- *)
+Lemma complete_ok : forall y k v s, Inv s -> bst s = BPend k -> out s = Some y ->
+  let '(s1, ev) := run_body s v in
+  let '(s2, r) := settle y s1 in
+  Inv s2 /\ live s2 = live s /\ created s2 = created s /\
+  (forall x, (count_ev (is_ctor x) ev + count_z x (gds s) = count_ev (is_dtor x) ev + count_z x (gds s2))%nat) /\
+  ((r = RPend <-> exists k, bst s2 = BPend k) /\ (res_item r = [] -> r = RPend)) /\
+  forall args nc, rem s args nc = tag (S nc) (step_items ev r) ++ rem s2 args (S nc).
+Proof.
+  intros y k v s HI Hb Ho.
+  assert (Hy : valid_style y /\ armed y s /\ exists a, argp s = Some a).
+  { unfold Inv in HI. rewrite Hb in HI. destruct HI as (He & (y0 & a0 & Ho' & Hv & Ha & Hw) & Hd & Hx).
+    rewrite Ho in Ho'. injection Ho' as <-. split; auto. split; [|eauto].
+    unfold armed. rewrite Hb. repeat split; eauto. discriminate. }
+  destruct Hy as (Hy & Harm & (a & Hap)).
+  pose proof (resume_settle y s v Hy Harm) as HR.
+  unfold exec_of, pre_events in HR. rewrite Hb, Hap in HR.
+  pose proof (exec_balance) as HB.
+  destruct (exec (pc s) (gds s) (cur s) a) as [[[[st p] g] c] ev0] eqn:E.
+  destruct (run_body s v) as [s3 ev]. destruct (settle y s3) as [s4 r].
+  destruct HR as (Hev & Hl & Hcr & HI4 & Hst). cbn [app] in Hev. subst ev.
+  split; [exact HI4|]. split; [congruence|]. split; [congruence|].
+  split.
+  { intro x. specialize (HB x (pc s) (gds s) (cur s) a). rewrite E in HB. cbn [count_ev is_ctor is_dtor].
+    destruct st; destruct Hst as (_ & Hs); try (destruct Hs as (_ & _ & Hg & _); subst g; exact HB);
+    try (destruct Hs as (_ & _ & Hg); subst g; exact HB);
+    pose proof (exec_final_guards (pc s) (gds s) (cur s) a) as HF; rewrite E in HF; destruct HF as [-> _];
+    unfold Inv in HI4; rewrite Hs in HI4; destruct HI4 as (_ & _ & _ & Hg & _); rewrite Hg; exact HB. }
+  split.
+  { destruct st; destruct Hst as (Hr & Hs); subst r; try destruct Hs as (Hs & _);
+      (split; [split; intro H; try discriminate; try (destruct H as [k0 H]; congruence); eauto
+              | cbn; intro H; try discriminate; reflexivity]). }
+  intros args nc. unfold rem. rewrite Hb, Hap.
+  pose proof (exec_expected (pc s) (gds s) (cur s) a args (S nc)) as HX. rewrite E in HX.
+  unfold step_items. cbn [arg_items].
+  destruct st.
+  + destruct Hst as (-> & Hb4 & Hp & Hg). rewrite Hb4, Hp. rewrite HX. fin_tag.
+  + destruct Hst as (-> & Hb4 & Hp & Hg & Hc & Hap'). rewrite Hb4, Hp, Hc, Hap'. rewrite HX. fin_tag.
+  + destruct Hst as (-> & Hb4). rewrite Hb4, HX. fin_tag.
+  + destruct Hst as (-> & Hb4). rewrite Hb4, HX. fin_tag.
+Qed.
+
+(* ---------- an access after the end ---------- *)
+Lemma access_final : forall y a s, Inv s -> valid_style y -> bst s = BFinal ->
+  let '(s1, r, ev) := access y a s in
+  Inv s1 /\ live s1 = live s /\ created s1 = created s /\ bst s1 = BFinal /\ gds s1 = gds s /\ ev = [] /\
+  res_item r = [XEnd] /\ (exn s <> None -> r = REndT).
+Proof.
+  intros y a s HI Hy Hb.
+  destruct s as [lv cr pc0 gd cu bs ca fn ap rt ex dn bl aw ot fu it ak ns er].
+  unfold Inv in HI. cbn [err bst out caller done exn gds ret pc] in HI. cbn [bst] in Hb. subst bs.
+  destruct HI as (He & Ho & Hc & Hg & Hp & Hr & Hd). subst.
+  destruct (valid_style_cases y Hy) as [->|[->|[->|[->|[->| ->]]]]];
+  destruct Hd as [(-> & ->)|(-> & e & ->)]; vm_compute;
+  repeat split; eauto; try discriminate; try (intro; discriminate); try (intro H; exfalso; apply H; reflexivity).
+Qed.
+
+(* ---------- the whole run ---------- *)
+Definition Good (s : sys) : Prop :=
+  err s = false /\ (live s = true -> Inv s /\ created s = true) /\ (live s = false -> gds s = []).
+
+Definition nc_next (x : op) (o : obs) (nc : nat) : nat := if ok o && is_complete x then S nc else nc.
+Definition step_log (x : op) (o : obs) (nc : nat) : list (item * nat) :=
+  tag (nc_next x o nc) (arg_items (o_ev o) ++ (if is_access x || is_complete x then res_item (o_res o) else [])).
+Definition cons_arg (x : op) (o : obs) (args : list Z) : list Z :=
+  match x with OAccess _ a => if ok o then a :: args else args | _ => args end.
+
+Lemma log_of_cons x ops o os nc :
+  log_of (x :: ops) (o :: os) nc = step_log x o nc ++ log_of ops os (nc_next x o nc).
+Proof. reflexivity. Qed.
+
+Lemma call_args_cons x ops o os : call_args (x :: ops) (o :: os) = cons_arg x o (call_args ops os).
+Proof. destruct x; reflexivity. Qed.
+
+Lemma style_ok_valid ha y : style_ok ha y = true -> valid_style y.
+Proof. unfold style_ok, valid_style. lia. Qed.
+
+Lemma step_rejected_log x nc : step_log x rejected nc = [] /\ nc_next x rejected nc = nc /\ forall args, cons_arg x rejected args = args.
+Proof. unfold step_log, nc_next, cons_arg. cbn. destruct x; cbn; auto. Qed.
+
+Lemma out_none_not_pend s : Inv s -> out s = None -> bst s = BInit \/ bst s = BYield \/ bst s = BFinal.
+Proof.
+  intros HI Ho. unfold Inv in HI. destruct (bst s); auto.
+  destruct HI as (_ & (y & a & Ho' & _) & _). congruence.
+Qed.
+
+Lemma arg_items_dtors gs : arg_items (map EDtor gs) = [].
+Proof. induction gs; cbn; auto. Qed.
+
+(* an access is outstanding exactly while the body is suspended on a pending await *)
+Lemma inv_out_pend s : Inv s -> ((exists k, bst s = BPend k) <-> out s <> None).
+Proof.
+  intro HI. unfold Inv in HI. destruct (bst s) eqn:Eb.
+  - destruct HI as (_ & Ho & _). rewrite Ho. split; [intros [k H]; discriminate|congruence].
+  - destruct HI as (_ & Ho & _). rewrite Ho. split; [intros [k H]; discriminate|congruence].
+  - destruct HI as (_ & (y & a & Ho & _) & _). rewrite Ho. split; [discriminate|eauto].
+  - destruct HI as (_ & Ho & _). rewrite Ho. split; [intros [k H]; discriminate|congruence].
+Qed.
+
+Definition step_ok (s : sys) (x : op) (s1 : sys) (o : obs) : Prop :=
+  Good s1 /\
+  (forall z, (count_ev (is_ctor z) (o_ev o) + count_z z (gds s) = count_ev (is_dtor z) (o_ev o) + count_z z (gds s1))%nat) /\
+  (live s = true -> forall nc args log,
+     conforms (step_log x o nc ++ log) (rem s (cons_arg x o args) nc) nc
+     = conforms log (rem s1 args (nc_next x o nc)) (nc_next x o nc)) /\
+  (live s = false -> created s = true -> live s1 = false /\ created s1 = true /\ forall nc, step_log x o nc = []) /\
+  (ok o = true -> (is_access x || is_complete x) = true -> (o_res o = RPend <-> exists k, bst s1 = BPend k)) /\
+  ((o_news o - o_dels o = b2z (live s1) - b2z (live s)) /\ (0 <= o_news o) /\ (0 <= o_dels o)) /\
+  (created s = true -> created s1 = true).
+
+Lemma step_ok_rejected s x : Good s -> step_ok s x s rejected.
+Proof.
+  intro HG. split; [exact HG|]. split; [intro; cbn; lia|].
+  split. { intros _ nc args log. destruct (step_rejected_log x nc) as (-> & -> & ->). reflexivity. }
+  split. { intros Hl Hc. repeat split; auto. intro nc. apply step_rejected_log. }
+  split. { cbn. discriminate. }
+  split; [cbn; lia|auto].
+Qed.
+
+Lemma step_facts : forall ha s x, Good s -> let '(s1, o) := step ha s x in step_ok s x s1 o.
+Proof.
+  intros ha s x HG.
+  destruct x as [sc|y a|k v| | |]; cbn [step].
+  - (* Create *)
+    destruct (created s) eqn:Ecr; [apply step_ok_rejected; exact HG|].
+    destruct HG as (He & HG1 & HG2).
+    assert (Hl : live s = false).
+    { destruct (live s) eqn:El; auto. destruct (HG1 eq_refl) as [_ H]. congruence. }
+    unfold step_ok. cbn [o_ev o_res o_news o_dels live gds created].
+    split. { split; [exact He|]. split; [intros _|discriminate]. split; [|reflexivity]. unfold Inv. cbn. repeat split; auto. }
+    split. { intro z. rewrite (HG2 Hl). cbn. lia. }
+    split. { intro H. congruence. }
+    split. { intros _ H. congruence. }
+    split. { cbn. discriminate. }
+    split; [rewrite Hl; cbn; lia|reflexivity].
+  - (* Access *)
+    destruct (live s && match out s with None => true | Some _ => false end && style_ok ha y) eqn:G;
+      [|apply step_ok_rejected; exact HG].
+    apply andb_prop in G. destruct G as [G Hs]. apply andb_prop in G. destruct G as [Hl Ho].
+    assert (Ho' : out s = None) by (destruct (out s); [discriminate|reflexivity]).
+    pose proof (style_ok_valid ha y Hs) as Hy.
+    destruct HG as (He & HG1 & HG2). destruct (HG1 Hl) as [HI Hcr].
+    destruct (out_none_not_pend s HI Ho') as [Hb|[Hb|Hb]].
+    1,2: (assert (Hb' : bst s = BInit \/ bst s = BYield) by auto;
+      pose proof (access_ok y a s HI Hy Hb') as HA;
+      destruct (access y a s) as [[s1 r] ev];
+      destruct HA as (HI1 & Hl1 & Hcr1 & Hbal & (Hp1 & Hp2) & Hrem);
+      unfold step_ok; cbn [o_ev o_res o_news o_dels o_st];
+      split; [split; [apply HI1|]; split; [intros _; split; [exact HI1|congruence]|intro H; congruence]|];
+      split; [exact Hbal|];
+      split; [intros _ nc args log; unfold step_log, nc_next, cons_arg, ok; cbn [o_st o_ev o_res is_access is_complete orb andb Z.eqb];
+              rewrite Hrem; unfold step_items; apply conforms_tag_app'; auto|];
+      split; [intro H; congruence|];
+      split; [intros _ _; exact Hp1|];
+      split; [rewrite Hl1; lia|congruence]).
+    pose proof (access_final y a s HI Hy Hb) as HA.
+    destruct (access y a s) as [[s1 r] ev].
+    destruct HA as (HI1 & Hl1 & Hcr1 & Hb1 & Hg1 & -> & Hr & _).
+    unfold step_ok; cbn [o_ev o_res o_news o_dels o_st].
+    split. { split; [apply HI1|]. split; [intros _; split; [exact HI1|congruence]|intro H; congruence]. }
+    split. { intro z. rewrite Hg1. cbn. lia. }
+    split. { intros _ nc args log. unfold step_log, nc_next, cons_arg, ok. cbn [o_st o_ev o_res is_access is_complete orb andb Z.eqb arg_items app].
+             rewrite Hr. unfold rem. rewrite Hb, Hb1. cbn. rewrite Nat.eqb_refl. reflexivity. }
+    split. { intro H; congruence. }
+    split. { intros _ _. split; [intro H; subst r; discriminate|intros [k H]; congruence]. }
+    split; [rewrite Hl1; lia|congruence].
+  - (* Complete *)
+    destruct (out s) as [y|] eqn:Ho; [|apply step_ok_rejected; exact HG].
+    destruct (bst s) as [| |k'|] eqn:Hb; try (apply step_ok_rejected; exact HG).
+    destruct (live s && (k =? k')) eqn:G; [|apply step_ok_rejected; exact HG].
+    apply andb_prop in G. destruct G as [Hl Hk].
+    destruct HG as (He & HG1 & HG2). destruct (HG1 Hl) as [HI Hcr].
+    pose proof (complete_ok y k' v s HI Hb Ho) as HA.
+    destruct (run_body s v) as [s1 ev]. destruct (settle y s1) as [s2 r].
+    destruct HA as (HI1 & Hl1 & Hcr1 & Hbal & (Hp1 & Hp2) & Hrem).
+    unfold step_ok; cbn [o_ev o_res o_news o_dels o_st].
+    split. { split; [apply HI1|]. split; [intros _; split; [exact HI1|congruence]|intro H; congruence]. }
+    split; [exact Hbal|].
+    split. { intros _ nc args log. unfold step_log, nc_next, cons_arg, ok. cbn [o_st o_ev o_res is_access is_complete orb andb Z.eqb].
+             rewrite Hrem. unfold step_items. apply conforms_tag_app'.
+             intro Hnil. right. apply app_eq_nil in Hnil. destruct Hnil as [_ Hnil].
+             destruct (proj1 Hp1 (Hp2 Hnil)) as [k0 Hk0]. unfold rem. rewrite Hk0. apply expected_nonempty. }
+    split. { intro H; congruence. }
+    split. { intros _ _. exact Hp1. }
+    split; [rewrite Hl1; lia|congruence].
+  - (* Destroy *)
+    destruct (live s && match out s with None => true | Some _ => false end) eqn:G; [|apply step_ok_rejected; exact HG].
+    apply andb_prop in G. destruct G as [Hl Ho].
+    destruct HG as (He & HG1 & HG2).
+    unfold step_ok; cbn [o_ev o_res o_news o_dels o_st].
+    split. { split; [exact He|]. split; [cbn; discriminate|reflexivity]. }
+    split. { intro z. rewrite count_ctor_map, count_dtor_map. cbn. lia. }
+    split. { intros _ nc args log. unfold step_log, nc_next, cons_arg, ok. cbn [o_st o_ev o_res is_access is_complete orb andb Z.eqb].
+             rewrite arg_items_dtors. reflexivity. }
+    split. { intro H; congruence. }
+    split. { cbn. discriminate. }
+    split; [rewrite Hl; cbn; lia|reflexivity].
+  - (* Peek *)
+    destruct (live s && match out s with None => true | Some _ => false end) eqn:G; [|apply step_ok_rejected; exact HG].
+    unfold step_ok; cbn [o_ev o_res o_news o_dels o_st].
+    split; [exact HG|]. split; [intro; cbn; lia|].
+    split. { intros _ nc args log. reflexivity. }
+    split. { intros Hl _. apply andb_prop in G. destruct G as [G _]. congruence. }
+    split. { cbn. discriminate. }
+    split; [lia|auto].
+  - apply step_ok_rejected; exact HG.
+Qed.
+
+Lemma run_cons ha s x ops :
+  run_from ha s (x :: ops) =
+  (snd (step ha s x) :: fst (run_from ha (fst (step ha s x)) ops), snd (run_from ha (fst (step ha s x)) ops)).
+Proof. cbn [run_from]. destruct (step ha s x) as [s1 o]. cbn [fst snd]. destruct (run_from ha s1 ops); reflexivity. Qed.
+
+Lemma dead_log : forall ha ops s nc, Good s -> live s = false -> created s = true ->
+  log_of ops (fst (run_from ha s ops)) nc = [] /\ live (snd (run_from ha s ops)) = false.
+Proof.
+  induction ops as [|x ops IH]; intros s nc HG Hl Hc; [cbn; auto|].
+  rewrite run_cons. cbn [fst snd]. rewrite log_of_cons.
+  pose proof (step_facts ha s x HG) as HS. destruct (step ha s x) as [s1 o]. cbn [fst snd].
+  destruct HS as (HG1 & _ & _ & HD & _). destruct (HD Hl Hc) as (Hl1 & Hc1 & Hlog).
+  rewrite Hlog. cbn [app]. apply IH; auto.
+Qed.
+
+(* THE MAIN LEMMA: the log of any run from a good live state conforms to what the body script promises *)
+Lemma run_conforms : forall ha ops s nc, Good s -> live s = true ->
+  conforms (log_of ops (fst (run_from ha s ops)) nc) (rem s (call_args ops (fst (run_from ha s ops))) nc) nc = true.
+Proof.
+  induction ops as [|x ops IH]; intros s nc HG Hl; [reflexivity|].
+  rewrite run_cons. cbn [fst snd]. rewrite log_of_cons, call_args_cons.
+  pose proof (step_facts ha s x HG) as HS. destruct (step ha s x) as [s1 o]. cbn [fst snd].
+  destruct HS as (HG1 & _ & HC & _ & _ & _ & Hcr).
+  rewrite (HC Hl).
+  destruct (live s1) eqn:Hl1.
+  - apply IH; auto.
+  - destruct HG as (_ & HGl & _). destruct (HGl Hl) as [_ Hc].
+    destruct (dead_log ha ops s1 (nc_next x o nc) HG1 Hl1 (Hcr Hc)) as [-> _]. reflexivity.
+Qed.
+
+Lemma good0 : Good sys0.
+Proof. unfold Good. cbn. repeat split; auto; discriminate. Qed.
+
+Lemma run_good : forall ha ops s, Good s -> Good (snd (run_from ha s ops)).
+Proof.
+  induction ops as [|x ops IH]; intros s HG; [exact HG|].
+  rewrite run_cons. cbn [snd]. apply IH.
+  pose proof (step_facts ha s x HG) as HS. destruct (step ha s x) as [s1 o]. apply HS.
+Qed.
+
+(* C13 style_independent / sync_waits_async: for every body script, every op list (any mix of styles, any
+   completion timing, malformed ops included) the log of what the consumer received and what the body received
+   is a prefix of the specification's log, with matching completion counts, and only End follows it. *)
+Theorem gen_conforms : forall ha sc ops,
+  let os := fst (run_from ha sys0 (OCreate sc :: ops)) in
+  conforms (log_of (OCreate sc :: ops) os 0) (spec sc (call_args (OCreate sc :: ops) os)) 0 = true.
+Proof.
+  intros ha sc ops os. subst os.
+  rewrite run_cons. cbn [fst snd]. rewrite log_of_cons, call_args_cons.
+  pose proof (step_facts ha sys0 (OCreate sc) good0) as HS.
+  cbn [step created sys0] in *.
+  destruct HS as (HG1 & _).
+  set (s1 := mkSys true true sc [] 0 BInit CNull FNone None None None false false false None FNoVal None false false false) in *.
+  change (conforms (log_of ops (fst (run_from ha s1 ops)) 0) (rem s1 (call_args ops (fst (run_from ha s1 ops))) 0) 0 = true).
+  apply run_conforms; auto.
 Qed.
